@@ -51,10 +51,11 @@ META = dict(
                 "witnesses), suppressed(clip=False) (compared within 1e-9, no theorem). Oracle only: impose_unique(full=None|int|float|dict), "
                 "outer=/exit= variants (identical under the identity function). Not covered: integer-dtype input vectors with non-integral "
                 "parameters (numpy truncates on assignment), callable sources of synchronized, vector-valued clipped bounds, with_std, "
-                "cyclic impose_as masks (the real loop does not terminate). Refuted clauses = known findings: impose_at list target with dropped "
-                "indices raises; integers(ints=True,index) truncates unselected entries; synchronized ignores (index,factor) sources for ndarrays; "
-                "tools.connected does not merge groups bridged by a later pair; impose_as with an offset drifts when the group root is tracked or a "
-                "partner is out of range; suppressed(clip=False) raises on an empty vector. Theorems over R use the stdlib real axioms."),
+                "cyclic impose_as masks (the real loop does not terminate), an int passed to the index() setter (API misuse: TypeError on the next call). "
+                "Refuted clauses = known findings: integers(ints=True,index) truncates unselected entries; impose_as with an offset drifts when the "
+                "group root chosen by connected() is itself tracked, or when a partner index is out of range. Repaired in /repo and now proved / "
+                "checked as plain property clauses: impose_at list target with dropped indices, synchronized (index,factor) sources on ndarrays, "
+                "connected() merging bridged groups, suppressed(clip=False) on an empty vector. Theorems over R use the stdlib real axioms."),
     design_ref="5/C16")
 
 # ---------------------------------------------------------------------------------------------- generation
@@ -587,19 +588,10 @@ def oracle(case, obs):
             elif any(_norm(i, n) is None for i in idx):
                 exp_err = {"IndexError"}
     elif t == "impose_at":
-        kept = [i for i in case["index"] if i < n]
-        if any(i < -n for i in case["index"]):
+        # only i >= len(x) is dropped; i < -len(x) is rejected with IndexError.  A list target is paired with the indices (zip)
+        used = case["index"] if not isinstance(case["target"], list) else case["index"][:len(case["target"])]
+        if any(i < -n for i in used):
             exp_err = {"IndexError"}
-            if isinstance(case["target"], list) and len(case["target"]) not in (len(kept), 1):
-                exp_err.add("ValueError")      # numpy reports the shape mismatch before the bad index
-        elif isinstance(case["target"], list) and len(case["target"]) not in (len(kept), 1):
-            if len(case["target"]) == len(case["index"]) and all(i >= 0 for i in case["index"]):
-                # docstring: out-of-range indices are dropped (with their targets) -- raising here is finding F11
-                if "error" in out:
-                    return [_fail("impose_at_list_dropped", site, "list-target-dropped-index-raises",
-                                  dict(index=case["index"], target=case["target"], n=n, error=out["error"]))]
-            else:
-                exp_err = {"ValueError"}       # malformed: target list does not pair with the indices
     elif t == "unique" and isinstance(case["full"], str):
         k = case["full"]
         allint = all(not isinstance(v, float) for v in case["x"])
@@ -635,9 +627,6 @@ def oracle(case, obs):
             exp_err = {"KeyError"}
     elif t in ("with_mean", "with_variance") and n == 0:
         exp_err = {"ZeroDivisionError"}
-    elif t == "suppressed" and n == 0 and not case["clip"] and out.get("error") == "ZeroDivisionError":
-        # nothing to reject in an empty vector: suppress([], clip=False) divides the int 0 by the int 0
-        return [_fail("exactly_addressed_entries", site, "empty-input-clip-false-raises", out)]
     elif t == "with_spread" and n == 0:
         exp_err = {"ValueError"}
 
@@ -779,24 +768,14 @@ def oracle(case, obs):
     elif t == "impose_at":
         tg = case["target"]
         exp = list(x)
-        if isinstance(tg, list) and len(tg) == 1 and len(case["index"]) != 1:
-            tg = tg[0]                                           # numpy broadcast of a 1-element list
-        if isinstance(tg, list):
-            wellformed = len(tg) == len(case["index"])
-            for k, i in enumerate(case["index"]):
-                p = _norm(i, n)
-                if p is not None and k < len(tg):
-                    exp[p] = F(tg[k])
-            if not wellformed:
-                exp = None
-        else:
-            for i in case["index"]:
-                p = _norm(i, n)
-                if p is not None:
-                    exp[p] = F(tg)
-        addressed = set(_norm(i, n) for i in case["index"]) - {None}
+        pairs = list(zip(case["index"], tg)) if isinstance(tg, list) else [(i, tg) for i in case["index"]]
+        for i, v in pairs:
+            p = _norm(i, n)
+            if p is not None:
+                exp[p] = F(v)
+        addressed = set(_norm(i, n) for i, _ in pairs) - {None}
         unchanged([p for p in range(n) if p not in addressed], "exactly_addressed_entries", "unaddressed-entry-changed")
-        if exp is not None and y != exp:
+        if y != exp:
             fails.append(_fail("in_target", site, "entry-not-pinned-to-target", dict(out=out["v"], want=[float(v) for v in exp])))
     elif t == "impose_as":
         off = F(case["offset"] or 0)
@@ -809,14 +788,11 @@ def oracle(case, obs):
                 bad.append([i, j])
         unchanged([p for p in range(n) if p not in mentioned], "exactly_addressed_entries", "unaddressed-entry-changed")
         if bad:
-            valid = [(i, j) for i, j in case["mask"]]
-            bridged = obs.get("groups") is not None and obs["groups"] > _components(valid)
             if any(_norm(i, n) is None for i, _ in case["mask"]):
                 fails.append(_fail("in_target", site, "out-of-range-partner", dict(pairs=bad, out=out["v"])))
             else:
-                fails.append(_fail("in_target", "tools.connected" if bridged else site,
-                                   "bridging-pair-groups-not-merged" if bridged else "entry-does-not-track-partner",
-                                   dict(pairs=bad, out=out["v"], groups=obs.get("groups"))))
+                fails.append(_fail("in_target", site, "entry-does-not-track-partner",
+                                   dict(pairs=bad, out=out["v"], groups=obs.get("groups"), components=_components(case["mask"]))))
     elif t == "unique":
         if len(set(y)) != len(y):
             fails.append(_fail("in_target", site, "values-not-pairwise-distinct", out["v"]))
@@ -852,26 +828,14 @@ def oracle(case, obs):
             fails.append(_fail("exactly_addressed_entries", site, "not-exactly-the-fixed-entries", dict(out=out["v"], want=[float(v) for v in exp])))
     elif t == "synchronized":
         exp = list(x)
-        exp_arr = list(x)       # what the code does for arrays: (index, factor) sources are skipped
         for k, j in case["mask"]:
             pk = _norm(k, n)
-            if isinstance(j, list):
-                pj = _norm(j[0], n)
-                c = F(j[1]) if len(j) > 1 else F(1)
-                if pk is not None and pj is not None:
-                    exp[pk] = c * exp[pj]
-                    if len(j) == 1:
-                        exp_arr[pk] = exp_arr[pj]     # x[(j,)] is a valid numpy index
-            else:
-                pj = _norm(j, n)
-                if pk is not None and pj is not None:
-                    exp[pk] = exp[pj]
-                    exp_arr[pk] = exp_arr[pj]
+            pj = _norm(j[0] if isinstance(j, list) else j, n)
+            c = F(j[1]) if isinstance(j, list) and len(j) > 1 else F(1)
+            if pk is not None and pj is not None:
+                exp[pk] = c * exp[pj]
         if y != exp:
-            if case["arr"] and y == exp_arr and any(isinstance(j, list) and len(j) > 1 for _, j in case["mask"]):
-                fails.append(_fail("exactly_addressed_entries", site, "ndarray-tuple-source-ignored", dict(out=out["v"], want=[float(v) for v in exp])))
-            else:
-                fails.append(_fail("exactly_addressed_entries", site, "not-exactly-the-tied-entries", dict(out=out["v"], want=[float(v) for v in exp])))
+            fails.append(_fail("exactly_addressed_entries", site, "not-exactly-the-tied-entries", dict(out=out["v"], want=[float(v) for v in exp])))
     elif t == "suppressed":
         tol = F(case["tol"])
         smallp = [p for p in range(n) if abs(x[p]) < tol]
@@ -1050,13 +1014,11 @@ def coq_terms(case, obs):
         if "v" not in out:
             return []
         def src(j):
-            if isinstance(j, list) and len(j) == 1 and case["arr"]:
-                return "(SIdx NumQ %s)" % zlit(j[0])            # x[(j,)] on an ndarray is x[j]
             if isinstance(j, list):
                 return "(SMul NumQ %s %s)" % (zlit(j[0]), qlit(j[1] if len(j) > 1 else 1))
             return "(SIdx NumQ %s)" % zlit(j)
         m = "(%s : list (Z * source NumQ))" % lst(["(%s, %s)" % (zlit(k), src(j)) for k, j in case["mask"]])
-        return ["qlist_eq (synchronized NumQ %s %s %s) %s" % (blit(case["arr"]), m, x, _ql(out["v"]))]
+        return ["qlist_eq (synchronized NumQ %s %s) %s" % (m, x, _ql(out["v"]))]
     if t == "suppressed":
         if "v" not in out:
             return []
